@@ -28,7 +28,7 @@ LIM = 2 ** 20
 DOMS = {"x": [0, 1], "y": [0, 1, 2], "z": [0, 1], "w": [0, 1]}
 
 KINDS = ["matrix", "expr_str", "expr_direct", "expr_direct_kw", "pyfunc", "pyfunc_kw", "pyfunc_named_kw", "pyfunc_partial", "unary", "boolean",
-         "zeroary", "neutral", "cond_neutral", "cond_zero"]
+         "zeroary", "neutral", "cond_neutral", "cond_zero", "cond_shared"]
 
 
 def jobs(tier):
@@ -148,6 +148,20 @@ def build(eng, kind, names):
         return R.ZeroAryRelation("z", val), (lambda a: val), []
     if kind == "neutral":
         return R.NeutralRelation(vs, name="n"), (lambda a: 0), order
+    if kind == "cond_shared":
+        # the condition variable is also a variable of the consequence
+        cvar = order[0]
+        eng.notes["cvar"] = cvar
+        cond = R.UnaryBooleanRelation("c", V[cvar])
+        shape = [len(DOMS[n]) for n in order]
+        tab = {idx: eng.sym_int("t_" + "".join(map(str, idx)), -LIM, LIM) for idx in itertools.product(*map(range, shape))}
+
+        def nest(prefix, dims):
+            return tab[tuple(prefix)] if not dims else [nest(prefix + [i], dims[1:]) for i in range(dims[0])]
+        body = R.NAryMatrixRelation([V[n] for n in order], nest([], shape), name="t")
+        rel = R.ConditionalRelation(cond, body, name="cr", return_neutral=True)
+        ref = lambda a: (tab[tuple(DOMS[n].index(a[n]) for n in order)] if a[cvar] else 0)
+        return rel, ref, sorted(order)
     if kind.startswith("cond"):
         cvar, rest = order[0], order[1:]
         eng.notes["cvar"] = cvar
